@@ -4,6 +4,7 @@ use heck::{
 };
 use std::str::FromStr;
 use syn::{
+    ext::IdentExt,
     parse::{Parse, ParseStream},
     Ident, LitStr,
 };
@@ -86,7 +87,8 @@ pub trait CaseStyleHelpers {
 
 impl CaseStyleHelpers for Ident {
     fn convert_case(&self, case_style: Option<CaseStyle>) -> String {
-        let ident_string = self.to_string();
+        // `r#type` names the variant `type`: the `r#` prefix is not part of the identifier.
+        let ident_string = self.unraw().to_string();
         if let Some(case_style) = case_style {
             match case_style {
                 CaseStyle::PascalCase => ident_string.to_upper_camel_case(),
